@@ -1,58 +1,22 @@
-import Heathcliff.Model.Evaluator
-import Mathlib.Tactic.Linarith
-import Mathlib.Tactic.Positivity
-import Mathlib.Tactic.Ring
-import Mathlib.Tactic.NormNum
-
-/-!
-  C03, scale agreement: the exact-arithmetic model `areCloseDy` of `util::are_close_f64` accepts identical scales, is symmetric, and refuses
-  every pair whose relative difference is at least 2^-45 — in particular a rescaled product (scale s²/q) against the nominal scale s whenever
-  the dropped prime is not within 2^-45 of s.  Helper names start with `c03s_`.
--/
+/- C03 (task S): the CKKS square of the MODEL (`ckksSquare`, mirror of `ckks_square` with its size-2 fast path) at the integer level:
+   the exact phase of the square is the NEGACYCLIC SQUARE of the exact phase modulo Q (corollary of `ckksSquare_eq`, Proofs/C02S.lean,
+   and `ckks_multiply_phase`, Proofs/C03K.lean). -/
+import Heathcliff.Proofs.C03K
+import Heathcliff.Proofs.C02S
 namespace HC
 
-theorem c03s_closeInts_self (a one : Int) (h : 0 < one) : closeInts a a one = true := by
-  unfold closeInts
-  simp only [Int.sub_self, Int.natAbs_zero, decide_eq_true_eq]
-  have : (0 : Int) < max (max a a) one := lt_of_lt_of_le h (le_max_right _ _)
-  simpa using this
+/-- K1 SQUARE (`ckksSquare` = `ckks_square`, any size n in 2..8 — a larger square is refused by `resize`, in the code and in the
+    model: `ckksSquare_refuse_size`): the model succeeds, the result is a canonical ciphertext of 2n − 1 polynomials, and its exact
+    phase is the negacyclic square of the exact phase modulo Q: phase(r) ≡ phase(a) ⋆ phase(a).  No noise is added. -/
+theorem ckks_square_phase {l : Level} (hl : l.WF) (hq : c07s_LevelQ l) (sk : Array Int) {a : Ct} (ha : CtCanon l a)
+    (hna : a.ntt = true) (h8 : a.polys.size ≤ 8) :
+    ∃ r, ckksSquare l a = .ok r ∧ c03k_Canon l r ∧ r.cf = a.cf ∧ r.polys.size = 2 * a.polys.size - 1 ∧ CtCanon l r ∧
+      ∀ j, j < l.n → c03k_phase l sk r j ≡ negMulR l.n (c03k_phase l sk a) (c03k_phase l sk a) j [ZMOD (c03k_Q l : Int)] := by
+  obtain ⟨r, hr, hcr, hcf, hsz, hcan, hph⟩ := ckks_multiply_phase hl hq sk ha ha hna hna (by omega)
+  exact ⟨r, by rw [ckksSquare_eq (c02v_qsWF_of_levelWF hl) ha]; exact hr, hcr, hcf, by omega, hcan, hph⟩
 
-theorem c03s_closeInts_symm (a b one : Int) : closeInts a b one = closeInts b a one := by
-  unfold closeInts
-  have : ((a - b).natAbs : Int) = ((b - a).natAbs : Int) := by
-    rw [← Int.natAbs_neg]; congr 2; ring
-  rw [this, max_comm a b]
-
-/-- relative difference at least 2^-45 ⇒ not close -/
-theorem c03s_closeInts_far (a b one : Int) (h : max (max a b) one ≤ ((a - b).natAbs : Int) * 35184372088832) :
-    closeInts a b one = false := by
-  unfold closeInts
-  simp only [decide_eq_false_iff_not, not_lt]
-  refine le_trans h ?_
-  have hn : (0 : Int) ≤ ((a - b).natAbs : Int) := Int.natCast_nonneg _
-  exact mul_le_mul_of_nonneg_left (by norm_num) hn
-
-theorem c03s_closeInts_iff (a b one : Int) :
-    closeInts a b one = true ↔ ((a - b).natAbs : Int) * 4503599627370496 < max (max a b) one := by
-  unfold closeInts; simp
-
-/-- identical scales are accepted, whatever they are -/
-theorem c03s_areClose_self (m e : Int) : areCloseDy m e m e = true := by
-  unfold areCloseDy
-  exact c03s_closeInts_self _ _ (by positivity)
-
-/-- the verdict does not depend on the operand order -/
-theorem c03s_areClose_symm (m1 e1 m2 e2 : Int) : areCloseDy m1 e1 m2 e2 = areCloseDy m2 e2 m1 e1 := by
-  unfold areCloseDy
-  rw [min_comm e1 e2]
-  exact c03s_closeInts_symm _ _ _
-
-/-- FAR APART ⇒ REFUSED (in the scaled integers of the definition: `|a − b| · 2^45 ≥ max(a, b, one)`) -/
-theorem c03s_areClose_far (m1 e1 m2 e2 : Int)
-    (h : max (max (m1 * 2 ^ (e1 - min (min e1 e2) 0).toNat) (m2 * 2 ^ (e2 - min (min e1 e2) 0).toNat)) (2 ^ (-min (min e1 e2) 0).toNat)
-          ≤ ((m1 * 2 ^ (e1 - min (min e1 e2) 0).toNat - m2 * 2 ^ (e2 - min (min e1 e2) 0).toNat).natAbs : Int) * 35184372088832) :
-    areCloseDy m1 e1 m2 e2 = false := by
-  unfold areCloseDy
-  exact c03s_closeInts_far _ _ _ h
+/-- the square of a coefficient-form ciphertext is refused -/
+theorem ckks_square_refuses_coeff (l : Level) (a : Ct) (h : a.ntt = false) : ckksSquare l a = .error .refused :=
+  ckksSquare_refuse l a h
 
 end HC
